@@ -347,14 +347,19 @@ func genC06(out, tier string, rng *rand.Rand) {
 	for _, en := range engines() {
 		for length := 1; length <= 5; length++ {
 			for k := 0; k < length; k++ {
-				for kind := 0; kind < 4; kind++ {
+				for kr := 0; kr < 12; kr++ {
+					// rot: which valid mutation leads the list (a SetCell, a DeleteFromRow or a DeleteFromFamily)
+					kind, rot := kr%4, kr/4
+					if rot > 0 && (length == 1 || kind == 3) {
+						continue
+					}
 					var ms []Mutation
 					for i := 0; i < length; i++ {
 						if i == k {
 							ms = append(ms, []Mutation{{Kind: "set", Fam: "nope", Q: []byte("q"), Ts: 1000, V: []byte("bad")}, {Kind: "set", Fam: "cf", Q: []byte("q"), Ts: 1001, V: []byte("bad")},
 								{Kind: "delcol", Fam: "cf", Q: []byte("s"), HasTR: true, S: 3000, E: 2000}, {Kind: "unset"}}[(k+length+kind)%4])
 						} else {
-							ms = append(ms, []Mutation{{Kind: "set", Fam: "cf", Q: []byte(fmt.Sprint("q", i)), Ts: 2000, V: []byte("ok")}, {Kind: "delrow"}, {Kind: "delfam", Fam: "cf"}}[i%3])
+							ms = append(ms, []Mutation{{Kind: "set", Fam: "cf", Q: []byte(fmt.Sprint("q", i)), Ts: 2000, V: []byte("ok")}, {Kind: "delrow"}, {Kind: "delfam", Fam: "cf"}}[(i+rot)%3])
 						}
 					}
 					prog := smallSetup()
@@ -425,7 +430,7 @@ func genC06(out, tier string, rng *rand.Rand) {
 	for _, r := range rs {
 		sink.AddPreV("seq", "check_all", "(list call * list bresp)", r.c, r.text, r.js, true)
 	}
-	sink.Close("every interleaving (at the yield points before the table lock and between row fetch and write-back) of two requests drawn from {MutateRow, MutateRows, CheckAndMutateRow, ReadModifyWriteRow, ReadRows} on the same and on different rows, each schedule followed by a recorded round-robin drain, compared step by step (parked / blocked / returned + response) with the interleaving model, then a full read; plus (tag atomic) every position k of an invalid mutation in lists of length 1..5 for each write RPC; 3 engines; thorough adds sampled three-thread schedules; distinct = distinct canonical text; non-trivial = some step was blocked on the table lock, or a failure-atomicity case", tier == "quick" || tier == "thorough")
+	sink.Close("every interleaving (at the yield points before the table lock and between row fetch and write-back) of two requests drawn from {MutateRow, MutateRows, CheckAndMutateRow, ReadModifyWriteRow, ReadRows} on the same and on different rows, each schedule followed by a recorded round-robin drain, compared step by step (parked / blocked / returned + response) with the interleaving model, then a full read; plus (tag atomic) every position k of an invalid mutation in lists of length 1..5 (led by a SetCell, a DeleteFromRow or a DeleteFromFamily) for each write RPC; 3 engines; thorough adds sampled three-thread schedules; distinct = distinct canonical text; non-trivial = some step was blocked on the table lock, or a failure-atomicity case", tier == "quick" || tier == "thorough")
 }
 
 // ---------------- C18: multi-message scans against writers (leveldb engines) ----------------
